@@ -319,6 +319,8 @@ def run_parent(pid, tier, seed, workers=None, cases=None, only=None, budget=None
     nworkers = max(1, min(int(cfg.get("workers", 4)), max(ncases, 1)))
     budget_s = float(cfg.get("budget_s", 60))
     pk = Parent(pid, meta, tier, seed)
+    pk.partial = only is not None      # --only/--replay runs do not overwrite the evidence
+    pk.only = only
     pk.cfg = cfg
     workdir = os.path.join(ROOT, ".work", f"{pid}-{os.getpid()}")
     os.makedirs(workdir, exist_ok=True)
@@ -438,7 +440,7 @@ def finish(pk):
     if len(pk.nontrivial) < 2:
         inconclusive.append(f"only {len(pk.nontrivial)} distinct non-trivial cases")
     planned = int(pk.cfg.get("cases", 0))
-    if planned and pk.notrun > 0.7 * planned:
+    if planned and pk.notrun > 0.9 * planned:
         inconclusive.append(f"budget exhausted: {pk.notrun}/{planned} cases not run")
 
     wall = time.time() - pk.t0
@@ -455,7 +457,8 @@ def finish(pk):
               assumptions=list(meta.get("assumptions", [])), wall_s=round(wall, 2),
               violations=sum(len(v) for v in viol_new.values()))
     os.makedirs(os.path.join(ROOT, "evidence"), exist_ok=True)
-    with open(os.path.join(ROOT, "evidence", pid + ".json"), "w") as f:
+    evname = pid + (".partial.json" if getattr(pk, "partial", False) else ".json")
+    with open(os.path.join(ROOT, "evidence", evname), "w") as f:
         f.write(json.dumps(ev, default=jdefault, indent=1, sort_keys=True) + "\n")
 
     for ln in lines:
